@@ -37,8 +37,25 @@ func init() {
 	}
 	gens["C01"] = withDsl(routerGen(routerKnobs{prof: profDefault, routesMax: 8, reqs: 14, hdrPct: 8, treq: true,
 		sessions: [2]int{1500, 40000}, small: [2]int{2, 3}, smallT: [2]int{3, 4}}), 250, 4000)
-	gens["C02"] = routerGen(routerKnobs{prof: profBinds, routesMax: 6, reqs: 14, hdrPct: 5, treq: true,
+	c02router := routerGen(routerKnobs{prof: profBinds, routesMax: 6, reqs: 14, hdrPct: 5, treq: true,
 		sessions: [2]int{1500, 40000}})
+	gens["C02"] = func(r *rand.Rand, tier string, emit Emit) {
+		c02router(r, tier, emit)
+		// a bind NAMED `route`: the reserved parameter shadows it (the handler sees the route text under that key; the
+		// theorems exclude the name) — served through the router only, next to ordinary binds that must still arrive
+		texts := []string{"/{route}/x", "/p/{route: /[a-z]+/}", "/{a}/{route}", "/f/{route: **}", "/{route}-{b}/y", "/o/{a}/?{route}"}
+		paths := []string{"/v/x", "/p/abc", "/1/2", "/f/a/b", "/u-w/y", "/o/1", "/o/1/2", "/p/ABC", "/v/x/"}
+		for i := 0; i < 12; i++ {
+			emit("NEW router")
+			for j := 0; j < 1+r.Intn(3); j++ {
+				t := texts[r.Intn(len(texts))]
+				emit("ADD %d GET %s %s", j, hx(t), wireOfText(t))
+			}
+			for j := 0; j < 6; j++ {
+				emit("REQ %s %s", hx("GET"), hx(paths[r.Intn(len(paths))]))
+			}
+		}
+	}
 	c07router := routerGen(routerKnobs{prof: profDefault, routesMax: 6, reqs: 16, hdrPct: 15, rawPaths: true, repeat: true,
 		sessions: [2]int{1200, 30000}})
 	// C07 = the router sessions, then whole applications behind Flame.ServeHTTP (harness/app.go)
@@ -60,7 +77,7 @@ func init() {
 var profStaticMix = &profile{weights: [6]int{55, 70, 80, 86, 94, 98}, plainStatic: true, maxSegs: 4, optionalPct: 40, innerOptPct: 5}
 
 var hdrNames = []string{"X-K", "x-k", "Accept", "X-Mode", "x-mode"}
-var hdrExprs = []string{"v", "^v$", "", "a|b", "[0-9]+", "^$", "x.x"}
+var hdrExprs = []string{"v", "^v$", "", "a|b", "[0-9]+", "^$", "x.x", `\d+`, "(?i)V", "v+?x"}
 var hdrVals = []string{"v", "vv", "", "a", "7", "xvx", "b", "x-x"}
 var reqMethods = []string{"GET", "GET", "GET", "GET", "POST", "POST", "HEAD", "PUT", "get", "Post"}
 var oddMethods = []string{"get", "", "FOO", "G\xffT", "GET ", "*", "TRACE", "CONNECT"}
@@ -345,6 +362,23 @@ func routerSession1(r *rand.Rand, k routerKnobs, emit Emit) {
 		}
 		text := rt.text()
 		ms := methodsFor(r)
+		if k.urlOps > 0 && k.hdrPct == 0 && r.Intn(4) == 0 {
+			// through Combo (one verb call per method) and ComboRoute.Name: only method lists Combo can spell
+			ok, seen := ms != "", map[string]bool{}
+			for _, m := range strings.Split(ms, ",") {
+				known := false
+				for _, v := range []string{"GET", "POST", "PUT", "DELETE", "PATCH", "OPTIONS", "HEAD", "CONNECT", "TRACE"} {
+					known = known || v == m
+				}
+				if !known || seen[m] {
+					ok = false
+				}
+				seen[m] = true
+			}
+			if ok {
+				ms = "combo:" + ms
+			}
+		}
 		if r.Intn(60) == 0 {
 			text = pick(r, []string{"", "a", "/a b", "/{", "/{x", "/a//b", "/{x}{", "/a?b", "/{x:}", "//", "/?", "/a/?"})
 		}
